@@ -130,6 +130,28 @@ def meta_stream(props, name="meta-cosim"):
     return stream
 
 
+def make_pct_chooser(SR, choices):
+    """PCT-style scheduling for the fine-grained mode: threads have random priorities and the highest-priority
+    enabled thread runs; a thread that has just been preempted at a line (not at a blocking / publishing
+    operation) drops to the lowest priority, so the others run on until they block — which is what makes a
+    narrow window (a few lines between two lock sections) likely to be hit by a whole critical path of another thread."""
+    prio, demoted, low = {}, {}, [0.0]
+
+    def choose(names, ops):
+        for n in names:
+            if n not in prio:
+                prio[n] = SR.random()
+            op = ops[n]
+            if op[0] == "line" and demoted.get(n) is not op:
+                demoted[n] = op
+                low[0] -= 1.0
+                prio[n] = low[0]
+        c = SR.choice(names) if SR.random() < 0.08 else max(names, key=lambda n: prio[n])
+        choices.append(c)
+        return c
+    return choose
+
+
 def data_fine_stream(props, name="data-fine-grained-exploration"):
     """The real Data server with LINE-LEVEL preemption inside server.py / subscription.py (sys.settrace): no
     lock-step model comparison is possible at this granularity; the properties' oracles are evaluated on the
@@ -138,11 +160,13 @@ def data_fine_stream(props, name="data-fine-grained-exploration"):
     def stream(tier):
         R0 = C.rng("conc-data-fine")
         res = Result(name)
-        n = {"quick": 300, "search": 1500, "thorough": 8000}[tier]
+        n = {"quick": 500, "search": 1500, "thorough": 8000}[tier]
         for i in range(n):
             seed = R0.getrandbits(48)
             R = random.Random(seed)
-            scn = CD.gen_scenario(R, "small")
+            # races on one item's bookkeeping need many requests on few items
+            scn = CD.gen_scenario(R, "large" if i % 4 < 2 else "small", max_items=1 if i % 4 == 0 else 2)
+            scn["probe"] = True
             scn["fine_seed"] = seed ^ 0xF1E2D3
             scn["fine_p"] = R.choice([0.15, 0.35, 0.6])
             SR = random.Random(seed ^ 0x5DEECE66D)
@@ -152,6 +176,11 @@ def data_fine_stream(props, name="data-fine-grained-exploration"):
                 c = SR.choice(names)
                 choices.append(c)
                 return c
+            if i % 2:
+                # PCT-style priorities with few preemptions
+                scn["fine_p"] = R.choice([0.02, 0.05, 0.1])
+                choose = make_pct_chooser(SR, choices)
+                res.distribution["pct_runs"] += 1
             run = CD.run_real(scn, choose)
             A = CD.analyse(run)
             res.evaluations += 1
